@@ -348,7 +348,9 @@ class Spectrum(numpy.ma.masked_array):
 
         if foldmaskinfo:
             # Write the mask to the file
-            numpy.savetxt(fid, [numpy.asarray(self.mask, int).ravel()],
+            # getmaskarray gives the full-size mask also when self.mask has
+            # been compressed to the scalar numpy.ma.nomask.
+            numpy.savetxt(fid, [numpy.ma.getmaskarray(self).astype(int).ravel()],
                           delimiter=' ', fmt='%d')
 
         fid.close()
